@@ -427,7 +427,8 @@ pub fn check_c07(args: &Args) -> Outcome {
     if done < n + nfit {
         ev.inconclusive.push(format!("wall-clock watchdog: {} of {} cases not generated", n + nfit - done, n + nfit));
     }
-    ev.evaluations += 1;
+    ev.extra.insert("cases".into(), json!(ev.evaluations));
+    ev.evaluations = ev.counters.get("messages_checked") + ev.counters.get("budgeted_deltas");
     ev.rule = "case = seeded sender state (0-40 members, 0-300 keys, value lengths incl. 16,383..16,385 / 32,768 / 40-65 KB, payload classes constant / english / printable / 7-bit / near-incompressible UTF-8) x 3 peer digests x {SYN-ACK, ACK, 18 budgets}; exact-fit sweeps re-write the last key byte by byte (+-40) around the length where it stops fitting; distinct = distinct emitted byte strings (hash); all are non-trivial (each is a reply computed by the real code and parsed by the independent decoder)".into();
     ev.assumptions = vec!["own digest leaves >= 100 bytes (enforced by the generators)".into(), "zstd treated as a black box; only framing is independently decoded".into()];
     let nothing = ev.counters.get("messages_checked") == 0;
@@ -694,6 +695,8 @@ pub fn check_c08(args: &Args) -> Outcome {
     if done < na + nb {
         ev.inconclusive.push(format!("wall-clock watchdog: {} of {} cases not generated", na + nb - done, na + nb));
     }
+    ev.extra.insert("cases".into(), json!(ev.evaluations));
+    ev.evaluations = ev.counters.get("messages_checked") + ev.counters.get("independent_encodings");
     ev.rule = "(a) real nodes (ids of length 0/1/255/256/16,384/60,000, IPv4+IPv6, every status, empty members, max-version tails, up to 900 members) emit SYN / SYN-ACK / ACK / BadCluster: announced length, real re-decode (==, nothing left), independent decode == the node's own view, content == sender state; (b) independently encoded messages (string lengths 0,1,255,256,16,383..16,385,65,534,65,535; raw / zstd / tiny / 65,535-byte / randomly cut blocks; digests up to 2,000 entries) decoded by the real decoder and compared; distinct = distinct byte strings (hash), each one a different message".into();
     ev.assumptions = vec!["strings <= 65,535 bytes and <= 65,535 digest entries (the quantifier)".into(), "zstd is a black box shared by both codecs".into()];
     let nothing = ev.counters.get("messages_checked") == 0 || ev.counters.get("independent_encodings") == 0;
